@@ -280,7 +280,7 @@ Definition esc_ok (kind arg : N) : bool :=
   match kind with
   | 0 => (arg =? 97) || (arg =? 98) || (arg =? 102) || (arg =? 110) || (arg =? 114) || (arg =? 116)
          || (arg =? 118)
-  | 1 => (33 <=? arg) && (arg <=? 126) && negb (ascii_name_char arg)
+  | 1 => (32 <=? arg) && (arg <=? 126) && negb (ascii_name_char arg)
   | 2 => (1 <=? arg) && (arg <? 256)
   | 3 => (1 <=? arg) && (arg <? 65536) && negb ((55296 <=? arg) && (arg <=? 57343))
   | 4 => (1 <=? arg) && (arg <? 256)
@@ -369,3 +369,83 @@ Fixpoint wf_items (nested : bool) (l : list item) {struct l} : bool :=
               end
   end.
 Definition wf (sc : list item) : bool := wf_items false sc.
+
+(* ---------- decoding a tree from the checker's generic term format ----------
+   bseg: ("t" s) ("n" (bsegs)) ("e" #c) ("nl")
+   seg : ("l" s) ("e" #kind #arg) ("v" name) ("bv" name) ("ar" name (segs)) ("c" (items))
+   word: ("B" (bsegs)) ("Q" (segs)) ("W" (segs)) ("X" word)
+   item: ("cmd" pre ((gap word) ...) post term) ("com" pre text term) ("emp" pre term) *)
+Fixpoint map_opt {A B} (f : A -> option B) (l : list A) : option (list B) :=
+  match l with
+  | [] => Some []
+  | x :: r => match f x, map_opt f r with
+              | Some y, Some ys => Some (y :: ys)
+              | _, _ => None
+              end
+  end.
+
+Definition tag_is (t : term) (w : string) : bool := str_eqb (term_str (term_nth t 0)) (lit w).
+Arguments tag_is t w%string.
+Definition term_N (t : term) : N := Z.to_N (term_int t).
+
+Fixpoint dec_bseg (fuel : nat) (t : term) : option bseg :=
+  match fuel with
+  | O => None
+  | S f =>
+      if tag_is t "t" then Some (BText (term_str (term_nth t 1)))
+      else if tag_is t "n" then
+        match map_opt (dec_bseg f) (term_list (term_nth t 1)) with Some l => Some (BNest l) | None => None end
+      else if tag_is t "e" then Some (BEsc (term_N (term_nth t 1)))
+      else if tag_is t "nl" then Some BLine
+      else None
+  end.
+
+Fixpoint dec_seg (fuel : nat) (t : term) {struct fuel} : option seg :=
+  match fuel with
+  | O => None
+  | S f =>
+      if tag_is t "l" then Some (SLit (term_str (term_nth t 1)))
+      else if tag_is t "e" then Some (SEsc (term_N (term_nth t 1)) (term_N (term_nth t 2)))
+      else if tag_is t "v" then Some (SVar (term_str (term_nth t 1)))
+      else if tag_is t "bv" then Some (SBVar (term_str (term_nth t 1)))
+      else if tag_is t "ar" then
+        match map_opt (dec_seg f) (term_list (term_nth t 2)) with
+        | Some l => Some (SArr (term_str (term_nth t 1)) l)
+        | None => None
+        end
+      else if tag_is t "c" then
+        match map_opt (dec_item f) (term_list (term_nth t 1)) with Some l => Some (SCmd l) | None => None end
+      else None
+  end
+with dec_word (fuel : nat) (t : term) {struct fuel} : option wordc :=
+  match fuel with
+  | O => None
+  | S f =>
+      if tag_is t "B" then
+        match map_opt (dec_bseg f) (term_list (term_nth t 1)) with Some l => Some (CBrace l) | None => None end
+      else if tag_is t "Q" then
+        match map_opt (dec_seg f) (term_list (term_nth t 1)) with Some l => Some (CQuote l) | None => None end
+      else if tag_is t "W" then
+        match map_opt (dec_seg f) (term_list (term_nth t 1)) with Some l => Some (CBare l) | None => None end
+      else if tag_is t "X" then
+        match dec_word f (term_nth t 1) with Some w => Some (CExpand w) | None => None end
+      else None
+  end
+with dec_item (fuel : nat) (t : term) {struct fuel} : option item :=
+  match fuel with
+  | O => None
+  | S f =>
+      if tag_is t "cmd" then
+        match map_opt (fun gw => match dec_word f (term_nth gw 1) with
+                                 | Some w => Some (term_str (term_nth gw 0), w)
+                                 | None => None
+                                 end) (term_list (term_nth t 2)) with
+        | Some ws => Some (ICmd (term_str (term_nth t 1)) ws (term_str (term_nth t 3)) (term_str (term_nth t 4)))
+        | None => None
+        end
+      else if tag_is t "com" then
+        Some (IComment (term_str (term_nth t 1)) (term_str (term_nth t 2)) (term_str (term_nth t 3)))
+      else if tag_is t "emp" then Some (IEmpty (term_str (term_nth t 1)) (term_str (term_nth t 2)))
+      else None
+  end.
+Definition dec_script (t : term) : option (list item) := map_opt (dec_item 40) (term_list t).
